@@ -104,6 +104,9 @@ def elem_src(style, e) -> str:
         else:
             d = doc(style, desc_lines("fc"), "    ", params=[("p", "int", "tok_fc_p_p is a parameter.")])
         return f"def fc(p: int) -> tuple[int, str, float]:\n{d}\n    ...\n\n"
+    if e == "CD":
+        d = doc(style, ["Create it."], "        ", params=[("z", "int", "tok_CD_p_z is a parameter.")])
+        return f"class CD:\n    def __init__(self, z: int):\n{d}\n        self.zz: int = z\n\n"
     if e == "CC":
         return "class CC:\n    at: int = 3\n\n    def plainmeth(self, p: int) -> int:\n        ...\n\n"
     d = doc(style, desc_lines("CB"), "    ")
@@ -116,6 +119,7 @@ for o in ("fa", "fb", "CA.meth", "CB.meth"):
     DECODE[f"tok_{und(o)}_p_p"] = (o, "p_p")
     DECODE[f"tok_{und(o)}_res"] = (o, "res")
 DECODE.update({"tok_fc_desc": ("fc", "desc"), "tok_fc_p_p": ("fc", "p_p"), "tok_fc_ra": ("fc", "ra"), "tok_fc_rb": ("fc", "rb"), "tok_fc_rc": ("fc", "rc")})
+DECODE["tok_CD_p_z"] = ("CD", "p_z")
 DECODE.update({"tok_fa_ex": ("fa", "ex"), "tok_CA_desc": ("CA", "desc"), "tok_CB_desc": ("CB", "desc"), "tok_CA_p_x": ("CA", "p_x"), "tok_CA_at_at": ("CA.at", "at")})
 
 
@@ -198,7 +202,7 @@ def main(v: Verdict) -> None:
             obs.append({"id": f"replay:{style}:{k}", "kind": "replay", "obs": {"style": style, "steps": steps}})
     n_replay = len(obs)
     # ---- (ii) end to end: every order of four documented elements, four styles
-    orders = generate(v, "DocAttach", "C13b_MC.cfg", min_records=720)
+    orders = generate(v, "DocAttach", "C13b_MC.cfg", min_records=1500)
     jobs, meta = [], []
     for style in ["PLAINTEXT", *STYLES]:
         files = {"__init__.py": ""}
@@ -233,7 +237,7 @@ def main(v: Verdict) -> None:
     for mod, by in sorted(per_style.items()):
         for a, b in (("NUMPYDOC", "GOOGLE"), ("NUMPYDOC", "REST")):
             if a in by and b in by:
-                for decl in ("fb", "CA.meth", "CB.meth", "CB"):
+                for decl in ("fb", "CA.meth", "CB.meth", "CB", "CD"):
                     obs.append({"id": f"style:{mod}:{decl}:{a}-{b}", "kind": "style",
                                 "obs": {"decl": decl, "kind": "function" if "." in decl or decl == "fb" else "class", "sa": a, "sb": b,
                                         "a": by[a].get(decl, "@missing"), "b": by[b].get(decl, "@missing")}})
